@@ -11,8 +11,10 @@ import (
 	_ "crypto/sha1"
 	_ "crypto/sha256"
 	"crypto/sha512"
+	"errors"
 	"fmt"
 	"hash"
+	"io"
 	"math/big"
 	"sort"
 	"testing"
@@ -99,6 +101,37 @@ func (e *c19Entropy) Read(p []byte) (int, error) {
 		e.pos++
 	}
 	return len(p), nil
+}
+
+// c19FailingReader delivers b in pieces of at most chunk bytes (0 = as asked)
+// and then fails: end 0 = io.EOF after the data, 1 = io.EOF together with the
+// last data, 2 = another error after the data.
+type c19FailingReader struct {
+	b     []byte
+	chunk int
+	end   int
+}
+
+func (e *c19FailingReader) Read(p []byte) (int, error) {
+	if len(e.b) == 0 {
+		if e.end == 2 {
+			return 0, errors.New("c19: entropy source failed")
+		}
+		return 0, io.EOF
+	}
+	n := len(p)
+	if e.chunk > 0 && n > e.chunk {
+		n = e.chunk
+	}
+	if n > len(e.b) {
+		n = len(e.b)
+	}
+	copy(p, e.b[:n])
+	e.b = e.b[n:]
+	if len(e.b) == 0 && e.end == 1 {
+		return n, io.EOF
+	}
+	return n, nil
 }
 
 func c19Seeded(seed uint64, n int) []byte { return h.Expand(seed, n) }
@@ -485,8 +518,33 @@ func init() {
 			})
 		}}
 	}
+	// the constructor forms: same decision as the setter, (nil, err) on refusal, the same value otherwise
+	ctorRow := func(name string, nominal int, valid func(in []byte) bool, set, ctor func(in []byte) (*scalar.Scalar, error)) {
+		R[name] = c19Row{Nominal: [3]int{nominal, -1, -1}, Run: func(c c19Case, a [3][]byte, r *h.R) {
+			c19NoPanic(r, name, func() {
+				s, err := ctor(a[0])
+				want := len(a[0]) == nominal && valid(a[0])
+				if (err == nil) != want || (err != nil && s != nil) || (err == nil && s == nil) {
+					r.Fail(name+":wrong-decision", "in=%x err=%v want-accept=%v", a[0], err, want)
+					return
+				}
+				if err == nil {
+					s2, err2 := set(a[0])
+					var b1, b2 [32]byte
+					_ = s.ToBytes(b1[:])
+					if err2 != nil || s2.ToBytes(b2[:]) != nil || b1 != b2 {
+						r.Fail(name+":differs-from-setter", "in=%x ctor=%x setter=%x err=%v", a[0], b1[:], b2[:], err2)
+					}
+				}
+			})
+		}}
+	}
 	anyOK := func([]byte) bool { return true }
 	canon := func(in []byte) bool { return ref.FromLE(in).Cmp(ref.L) < 0 }
+	ctorRow("scalar.NewFromBytesModOrder", 32, anyOK, func(in []byte) (*scalar.Scalar, error) { return scalar.New().SetBytesModOrder(in) }, scalar.NewFromBytesModOrder)
+	ctorRow("scalar.NewFromBytesModOrderWide", 64, anyOK, func(in []byte) (*scalar.Scalar, error) { return scalar.New().SetBytesModOrderWide(in) }, scalar.NewFromBytesModOrderWide)
+	ctorRow("scalar.NewFromCanonicalBytes", 32, canon, func(in []byte) (*scalar.Scalar, error) { return scalar.New().SetCanonicalBytes(in) }, scalar.NewFromCanonicalBytes)
+	ctorRow("scalar.NewFromBits", 32, anyOK, func(in []byte) (*scalar.Scalar, error) { return scalar.New().SetBits(in) }, scalar.NewFromBits)
 	scalarRow("scalar.Scalar.SetBytesModOrder", 32, anyOK, func(s *scalar.Scalar, in []byte) (*scalar.Scalar, error) { return s.SetBytesModOrder(in) })
 	scalarRow("scalar.Scalar.SetBits", 32, anyOK, func(s *scalar.Scalar, in []byte) (*scalar.Scalar, error) { return s.SetBits(in) })
 	scalarRow("scalar.Scalar.SetBytesModOrderWide", 64, anyOK, func(s *scalar.Scalar, in []byte) (*scalar.Scalar, error) { return s.SetBytesModOrderWide(in) })
@@ -725,6 +783,91 @@ func init() {
 			all, valid := bv.Verify(&c19Entropy{b: []byte{4, 4, 4}})
 			if len(valid) != 1 || valid[0] != plain || all != plain {
 				r.Fail(name+".AddWithOptions:disagrees-with-plain", "pk=%x opt=%d batch=%v plain=%v", a[0], c.N, valid, plain)
+			}
+		})
+	}}
+
+	// ------------------------------------------------------------------ entropy sources handed in by the caller
+	//
+	// a[0] is what the source can deliver before it fails (any length), in pieces
+	// of a size derived from N, ending with io.EOF (with or without the last
+	// data) or with another error.  How many bytes each consumer needs is not
+	// asserted (only partly documented): an empty source must be refused, 200
+	// bytes or more must do, and in every case "no result" and "error" go
+	// together and nothing panics.
+	type readerFn struct {
+		name string
+		call func(rd io.Reader) (haveResult bool, err error)
+	}
+	readerFns := []readerFn{
+		{"scalar.Scalar.SetRandom", func(rd io.Reader) (bool, error) { s, err := scalar.New().SetRandom(rd); return s != nil, err }},
+		{"curve.RistrettoPoint.SetRandom", func(rd io.Reader) (bool, error) {
+			p, err := curve.NewRistrettoPoint().SetRandom(rd)
+			return p != nil, err
+		}},
+		{"ed25519.GenerateKey", func(rd io.Reader) (bool, error) { pk, sk, err := ed25519.GenerateKey(rd); return pk != nil || sk != nil, err }},
+		{"x25519.GenerateKey", func(rd io.Reader) (bool, error) { pk, sk, err := x25519.GenerateKey(rd); return pk != nil || sk != nil, err }},
+		{"x25519.GeneratePrivateKey", func(rd io.Reader) (bool, error) { sk, err := x25519.GeneratePrivateKey(rd); return sk != nil, err }},
+		{"sr25519.GenerateMiniSecretKey", func(rd io.Reader) (bool, error) { k, err := sr25519.GenerateMiniSecretKey(rd); return k != nil, err }},
+		{"sr25519.GenerateSecretKey", func(rd io.Reader) (bool, error) { k, err := sr25519.GenerateSecretKey(rd); return k != nil, err }},
+		{"sr25519.GenerateKeyPair", func(rd io.Reader) (bool, error) { k, err := sr25519.GenerateKeyPair(rd); return k != nil, err }},
+		{"sr25519.KeyPair.Sign", func(rd io.Reader) (bool, error) {
+			msk, _ := sr25519.NewMiniSecretKeyFromBytes(c19Seeded(51, 32))
+			sig, err := msk.ExpandUniform().KeyPair().Sign(rd, sr25519.NewSigningContext([]byte("c19")).NewTranscriptBytes([]byte("m")))
+			return sig != nil, err
+		}},
+		{"ed25519.PrivateKey.Sign(AddedRandomness)", func(rd io.Reader) (bool, error) {
+			sig, err := ed25519.NewKeyFromSeed(c19Seeded(52, 32)).Sign(rd, []byte("m"), &ed25519.Options{AddedRandomness: true})
+			return sig != nil, err
+		}},
+		{"ecvrf.ProveWithAddedRandomness", func(rd io.Reader) (bool, error) {
+			pi, err := ecvrf.ProveWithAddedRandomness(rd, ed25519.NewKeyFromSeed(c19Seeded(53, 32)), []byte("a"))
+			return pi != nil, err
+		}},
+		{"ecvrf.ProveWithAddedRandomness_v10", func(rd io.Reader) (bool, error) {
+			pi, err := ecvrf.ProveWithAddedRandomness_v10(rd, ed25519.NewKeyFromSeed(c19Seeded(53, 32)), []byte("a"))
+			return pi != nil, err
+		}},
+		{"merlin.TranscriptRngBuilder.Finalize", func(rd io.Reader) (bool, error) {
+			rng, err := merlin.NewTranscript("c19").BuildRng().Finalize(rd)
+			return rng != nil, err
+		}},
+	}
+	R["entropy-readers"] = c19Row{Nominal: [3]int{-2, -1, -1}, NMax: len(readerFns)*12 - 1, Run: func(c c19Case, a [3][]byte, r *h.R) {
+		fn := readerFns[c.N%len(readerFns)]
+		mode := c.N / len(readerFns) // 0..11: chunk size x way of ending
+		rd := &c19FailingReader{b: append([]byte(nil), a[0]...), chunk: []int{0, 1, 7, 31}[mode%4], end: mode / 4}
+		c19NoPanic(r, fn.name, func() {
+			have, err := fn.call(rd)
+			if have != (err == nil) {
+				r.Fail(fn.name+":result-and-error-disagree", "source of %d bytes (mode %d): result=%v err=%v", len(a[0]), mode, have, err)
+			}
+			if len(a[0]) == 0 && err == nil {
+				r.Fail(fn.name+":result-from-empty-entropy-source", "mode %d", mode)
+			}
+			if len(a[0]) >= 200 && err != nil {
+				r.Fail(fn.name+":error-with-ample-entropy", "source of %d bytes (mode %d): %v", len(a[0]), mode, err)
+			}
+		})
+	}}
+	R["sr25519.SigningContext.NewTranscriptXOF"] = c19Row{Nominal: [3]int{-2, -2, -1}, Run: func(c c19Case, a [3][]byte, r *h.R) {
+		name := "sr25519.SigningContext.NewTranscriptXOF"
+		c19NoPanic(r, name, func() {
+			msk, _ := sr25519.NewMiniSecretKeyFromBytes(c19Seeded(54, 32))
+			kp := msk.ExpandUniform().KeyPair()
+			sc := sr25519.NewSigningContext(a[1])
+			mk := func() *sr25519.SigningTranscript {
+				xof := sha3.NewShake256()
+				_, _ = xof.Write(a[0])
+				return sc.NewTranscriptXOF(xof)
+			}
+			sig, err := kp.Sign(&c19Entropy{b: []byte{9, 9}}, mk())
+			if err != nil || sig == nil {
+				r.Fail(name+":sign-error-on-valid-input", "%v", err)
+				return
+			}
+			if !kp.PublicKey().Verify(mk(), sig) {
+				r.Fail(name+":own-signature-rejected", "msg-len=%d ctx-len=%d", len(a[0]), len(a[1]))
 			}
 		})
 	}}
